@@ -74,6 +74,7 @@ def harness_for(cfg):
 
     def h(E):
         b = csr.Builder(addr_width=aw, data_width=dw, granularity=g)
+        other = csr.Builder(addr_width=aw, data_width=dw, granularity=g)     # an unrelated builder used in between
         regs, offs, names = [], [], []
         for i, a in enumerate(cfg["adds"]):
             r = Reg(a["w"])
@@ -101,6 +102,8 @@ def harness_for(cfg):
                 with contextlib.ExitStack() as st:
                     for kind, val in scope:
                         st.enter_context(b.Cluster(val) if kind == "c" else b.Index(val))
+                    if i == 0:
+                        other.add("solo", Reg(8))          # scopes of `b` must not leak into `other`
                     b.add(a["name"], r, offset=o)
             except ValueError:
                 refused = True
@@ -113,6 +116,10 @@ def harness_for(cfg):
             regs.append(r)
             offs.append(o)
             names.append(tuple(v for _, v in scope) + (a["name"],))
+        if cfg["adds"]:
+            om = other.as_memory_map()
+            E.prove([tuple(n_) for _, n_, _ in om.resources()] == [("solo",)],
+                    "a register added to another builder picked up this builder's scope")
         try:
             mm = b.as_memory_map()
         except ValueError:
